@@ -101,5 +101,14 @@ structure Equiv (s t : St) : Prop where
   reg : s.linOn = t.linOn ∧ s.posKeys = t.posKeys ∧ s.regNode = t.regNode ∧ s.regEdge = t.regEdge
         ∧ s.rpAvail = t.rpAvail ∧ s.rpActive = t.rpActive ∧ s.iouKey = t.iouKey ∧ s.iouActive = t.iouActive
 
+/-- the joint invariant of a tracking solution with lineage ids (what "valid solution" means in
+    C03–C06); every accepted user action is meant to preserve it -/
+structure Valid (s : St) : Prop where
+  forest : Forest s
+  tid : TidOK s
+  lin : LinOK s
+  book : BookOK s
+  linOn : s.linOn = true
+
 end St
 end Ft
